@@ -163,6 +163,10 @@ pub fn generate(prop: &str, thorough: bool, rng: &mut Rng) -> Case {
             cfg.insert("shards".into(), 1 + rng.below(2) as i64);
             cfg.insert("cap".into(), 2 + rng.below(6) as i64);
             let k = rng.below(keys as usize) as u64;
+            // a fifth of the runs: the key's values are rejected by the admission filter (every insert of it is phantom)
+            if rng.chance(1, 5) {
+                cfg.insert("filter_mod".into(), k as i64 + 1);
+            }
             let waiters = 1 + rng.below(3);
             for _ in 0..waiters {
                 let mut ops = vec![];
@@ -182,6 +186,15 @@ pub fn generate(prop: &str, thorough: bool, rng: &mut Rng) -> Case {
             ins.push(Op::Insert { k, ver: vc.next(), w: 1, loc: 0, hold: rng.chance(1, 3) });
             for _ in 0..rng.below(3) {
                 ins.push(if rng.chance(2, 3) { Op::Get { k, hold: false } } else { Op::Yield { n: 2 } });
+            }
+            // second round: the inserted value leaves the cache again and a new fetch round of the key starts while the
+            // first round's origin may still be inside its final poll (its late result must not be taken for the new round's)
+            if rng.chance(1, 2) {
+                ins.push(if rng.chance(2, 3) { Op::Remove { k } } else { Op::EvictAll });
+                ins.push(Op::Fetch { k, ver: vc.next(), w: 1, yields: rng.below(3) as u8, fail: false, hold: false });
+                if rng.chance(1, 2) {
+                    ins.push(Op::Get { k, hold: false });
+                }
             }
             clients.push(ins);
             if rng.chance(1, 3) {
